@@ -201,6 +201,60 @@ pub fn check(init: St, ops: &[KOp]) -> Result<usize, LinFail> {
     })
 }
 
+/// All states the key can be in after some linearization of `ops` (bounded search; `None` when
+/// the bound is hit or the history is not linearizable).
+pub fn possible_states(init: St, ops: &[KOp]) -> Option<Vec<St>> {
+    let n = ops.len();
+    if n > 100 {
+        return None;
+    }
+    if n == 0 {
+        return Some(vec![init]);
+    }
+    let full: u128 = (1u128 << n) - 1;
+    let mut memo: HashSet<(u128, St)> = HashSet::new();
+    let mut stack: Vec<(u128, St)> = vec![(0, init)];
+    let mut finals: Vec<St> = Vec::new();
+    let mut explored = 0usize;
+    while let Some((done, st)) = stack.pop() {
+        if !memo.insert((done, st)) {
+            continue;
+        }
+        explored += 1;
+        if explored > 200_000 {
+            return None;
+        }
+        if done == full {
+            if !finals.contains(&st) {
+                finals.push(st);
+            }
+            continue;
+        }
+        let mut min_ret = u64::MAX;
+        for (i, o) in ops.iter().enumerate() {
+            if done & (1u128 << i) == 0 && o.ret < min_ret {
+                min_ret = o.ret;
+            }
+        }
+        for (i, o) in ops.iter().enumerate() {
+            if done & (1u128 << i) != 0 || o.inv > min_ret {
+                continue;
+            }
+            if let Some(ns) = step(st, &o.kind) {
+                stack.push((done | (1u128 << i), ns));
+            }
+            if o.optional {
+                stack.push((done | (1u128 << i), st));
+            }
+        }
+    }
+    if finals.is_empty() {
+        None
+    } else {
+        Some(finals)
+    }
+}
+
 #[cfg(test)]
 mod tests {
     use super::*;
